@@ -597,14 +597,18 @@ def reportRow (c : Compiled) (t : Nat) (vm : Vm) : Option (List (Nat Ã— String Ã
     if bad then (none, true)
     else if c.conf.getTicks || !vals.isEmpty then (some vals, false) else (none, false)
 
+/-- `-sim-stop-on-valid-of k`: the loop enters its last iteration when output `k` is valid -/
+def isShutdown (stopOn : Option Nat) (vm : Vm) : Bool :=
+  match stopOn with
+  | some k => readD vm (.outValid k) == 1
+  | none => false
+
 /-- one iteration of the loop of `cmd/bondmachine -sim` (`report` = `-sim-report` given) -/
 def iteration (step : Vm â†’ Vm) (c : Compiled) (stopOn : Option Nat) (report : Bool)
     (s : LoopSt) (t : Nat) : LoopSt :=
   if s.done then s
   else
-    let shutdown := match stopOn with
-      | some k => readD s.vm (.outValid k) == 1
-      | none => false
+    let shutdown := isShutdown stopOn s.vm
     let pre := if shutdown then s.vm else injected c.sh c.acts t s.vm
     let stepped := if shutdown then s.vm else step pre
     let post := if shutdown then s.vm else ackOutputs c.sh.nOut stepped
